@@ -14,6 +14,7 @@ def main():
         pass
     nv.build_lean()
     nv.build_codec('a')
+    nv.build_util()
     try:
         import engines
         engines.build_all()
